@@ -79,6 +79,9 @@ type Conf struct {
 	// Requests go to Location; for a LogoutResponse the property does not say which of the two is
 	// "the configured destination": either is accepted, but wire form and Destination attribute must agree.
 	RespLoc string `json:"resp_loc,omitempty"`
+	// IDPWant: WantAuthnRequestsSigned on the IDPSSODescriptors: "" absent | true | false (never judged
+	// here: what the IdP says it wants does not change where messages go or what they carry).
+	IDPWant string `json:"idp_want,omitempty"`
 	// Fields no clause mentions; varied, never judged.
 	LogoutBindings     []string `json:"logout_bindings,omitempty"`
 	AllowIDPInitiated  bool     `json:"allow_idp_initiated,omitempty"`
@@ -112,6 +115,19 @@ type Set struct {
 	ForceAuthn   string  `json:"force_authn,omitempty"` // "" unchanged | nil | true | false
 	AuthnCtx     string  `json:"authn_ctx,omitempty"`   // "" unchanged | nil | set
 	Ctx          *Ctx    `json:"ctx,omitempty"`
+	// IDP: the IdP's metadata is refreshed (the IdP moved its endpoints / changed its layout).
+	IDP *IDPChange `json:"idp,omitempty"`
+}
+
+// IDPChange is a refresh of the IdP metadata held by the long-lived SP.
+type IDPChange struct {
+	// Mode: pointer (sp.IDPMetadata = fresh) | inplace (*sp.IDPMetadata = *fresh) |
+	// descriptors (sp.IDPMetadata.IDPSSODescriptors = fresh.IDPSSODescriptors)
+	Mode        string `json:"mode"`
+	SSO         string `json:"sso"`
+	SLORedirect string `json:"slo_redirect"`
+	SLOPost     string `json:"slo_post"`
+	Layout      string `json:"layout,omitempty"`
 }
 
 // ---------------------------------------------------------------- generators
@@ -268,6 +284,7 @@ func genConf(t *rapid.T) Conf {
 	}
 	c.IDPLayout = rapid.SampledFrom(append([]string{"", ""}, idpLayouts...)).Draw(t, "layout")
 	c.RespLoc = rapid.SampledFrom([]string{"", "", "same", "other"}).Draw(t, "resploc")
+	c.IDPWant = rapid.SampledFrom([]string{"", "", "true", "false"}).Draw(t, "idpwant")
 	c.LogoutBindings = rapid.SampledFrom([][]string{nil, {saml.HTTPPostBinding}, {saml.HTTPRedirectBinding, saml.HTTPPostBinding}, {saml.HTTPRedirectBinding}}).Draw(t, "logoutbindings")
 	c.AllowIDPInitiated = rapid.Bool().Draw(t, "idpinit")
 	c.ValidDurationS = rapid.SampledFrom([]int{0, 0, 3600, 86400 * 30}).Draw(t, "validdur")
@@ -282,7 +299,14 @@ func genSet(t *rapid.T, label string) *Set {
 		return nil
 	}
 	st := &Set{}
-	switch rapid.IntRange(0, 4).Draw(t, label+"what") {
+	switch rapid.IntRange(0, 6).Draw(t, label+"what") {
+	case 5, 6:
+		st.IDP = &IDPChange{
+			Mode: rapid.SampledFrom([]string{"pointer", "inplace", "inplace", "descriptors"}).Draw(t, label+"idpmode"),
+			SSO:  genEndpoint(t, label+"sso", true), SLORedirect: genEndpoint(t, label+"slor", true), SLOPost: genEndpoint(t, label+"slop", true),
+			Layout: rapid.SampledFrom(idpLayouts).Draw(t, label+"idplayout"),
+		}
+		return st
 	case 0:
 		v := rapid.SampledFrom([]string{"", "https://other.example/saml/metadata", "urn:example:sp:changed&<>", "urn:with\rcr"}).Draw(t, label+"entity")
 		st.EntityID = &v
@@ -426,12 +450,9 @@ func xmlRound(in, out any) error {
 	return xml.Unmarshal(b, out)
 }
 
-func build(c Conf) (*parties, error) {
-	idpk := fix.Get("idp")
-	idp := &saml.IdentityProvider{
-		Key: idpk.Key, Certificate: idpk.Cert, Logger: quiet{},
-		MetadataURL: mustURL(c.IDPMetadataURL), SSOURL: mustURL(c.IDPSSO),
-	}
+// idpMetadataFor is the SP's copy of the IdP metadata for a configuration: what the IdP publishes,
+// laid out by the harness's own specification (idpSpec).
+func idpMetadataFor(idp *saml.IdentityProvider, c Conf) (*saml.EntityDescriptor, error) {
 	// The SP is configured from what the IdP publishes ...
 	idpMD := &saml.EntityDescriptor{}
 	if err := xmlRound(idp.Metadata(), idpMD); err != nil {
@@ -448,12 +469,30 @@ func build(c Conf) (*parties, error) {
 	// the descriptors the SP sees are laid out by the harness's own specification of the metadata
 	spec := idpSpec(c)
 	proto := idpMD.IDPSSODescriptors[0] // keeps the published key descriptors and name ID formats
+	switch c.IDPWant {
+	case "true", "false":
+		w := c.IDPWant == "true"
+		proto.WantAuthnRequestsSigned = &w
+	}
 	idpMD.IDPSSODescriptors = nil
 	for _, ds := range spec {
 		d := proto
 		d.SingleSignOnServices = append([]saml.Endpoint(nil), ds.sso...)
 		d.SingleLogoutServices = append([]saml.Endpoint(nil), ds.slo...)
 		idpMD.IDPSSODescriptors = append(idpMD.IDPSSODescriptors, d)
+	}
+	return idpMD, nil
+}
+
+func build(c Conf) (*parties, error) {
+	idpk := fix.Get("idp")
+	idp := &saml.IdentityProvider{
+		Key: idpk.Key, Certificate: idpk.Cert, Logger: quiet{},
+		MetadataURL: mustURL(c.IDPMetadataURL), SSOURL: mustURL(c.IDPSSO),
+	}
+	idpMD, err := idpMetadataFor(idp, c)
+	if err != nil {
+		return nil, err
 	}
 	k := fix.Get(c.Key)
 	sp := &saml.ServiceProvider{
@@ -500,6 +539,22 @@ func apply(p *parties, eff Conf, st *Set) (Conf, error) {
 			return eff, fmt.Errorf("SP metadata does not round-trip through its XML form: %v", err)
 		}
 		p.reg = &spStub{id: spMD.EntityID, md: spMD}
+	}
+	if ch := st.IDP; ch != nil {
+		eff.IDPSSO, eff.IDPSLORedirect, eff.IDPSLOPost, eff.IDPLayout = ch.SSO, ch.SLORedirect, ch.SLOPost, ch.Layout
+		p.idp.SSOURL = mustURL(eff.IDPSSO) // the IdP itself moved
+		fresh, err := idpMetadataFor(p.idp, eff)
+		if err != nil {
+			return eff, err
+		}
+		switch ch.Mode {
+		case "inplace":
+			*p.sp.IDPMetadata = *fresh
+		case "descriptors":
+			p.sp.IDPMetadata.IDPSSODescriptors = fresh.IDPSSODescriptors
+		default:
+			p.sp.IDPMetadata = fresh
+		}
 	}
 	if st.NameIDFormat != nil {
 		eff.NameIDFormat = *st.NameIDFormat
@@ -1168,6 +1223,7 @@ func check(c Case) pbt.Result {
 		}
 		p.issuer = r.issuer
 		p.stub.id, p.stub.md = r.reg.id, r.reg.md
+		p.idp.SSOURL = mustURL(r.eff.IDPSSO)
 		var d *decoded
 		var msg string
 		if m.Binding == "redirect" {
@@ -1375,6 +1431,36 @@ func enumLayouts(_ string, emit func(Case)) {
 	}
 }
 
+// enumIDPRefresh: on one SP, every message kind, then the IdP metadata refreshed (new pointer / in place /
+// descriptors replaced; new endpoints and another layout), then every message kind again, and back.
+func enumIDPRefresh(_ string, emit func(Case)) {
+	for _, mode := range []string{"pointer", "inplace", "descriptors"} {
+		for _, layout := range []string{"", "later-descriptor", "duplicates"} {
+			for _, sig := range []string{"", dsig.RSASHA256SignatureMethod} {
+				for _, k := range kinds {
+					cf := baseConf()
+					cf.SigMethod = sig
+					first := Msg{Type: k[0], Binding: k[1], RelayState: "before", NameID: "u@example.com", RequestID: "id-1"}
+					var msgs []Msg
+					msgs = append(msgs, first)
+					for i, k2 := range kinds {
+						m := Msg{Type: k2[0], Binding: k2[1], RelayState: fmt.Sprintf("after-%d", i), NameID: "u@example.com", RequestID: "id-2"}
+						if i == 0 {
+							m.Set = &Set{IDP: &IDPChange{Mode: mode, SSO: "https://new-idp.example.net/sso?v=2", SLORedirect: "https://new-idp.example.net/slo", SLOPost: "https://new-idp.example.net/slo-post", Layout: layout}}
+						}
+						msgs = append(msgs, m)
+					}
+					back := first
+					back.RelayState = "back"
+					back.Set = &Set{IDP: &IDPChange{Mode: mode, SSO: cf.IDPSSO, SLORedirect: cf.IDPSLORedirect, SLOPost: cf.IDPSLOPost}}
+					msgs = append(msgs, back)
+					emit(Case{Conf: cf, Msgs: msgs, Rand: strings.Repeat(fixedRand, len(msgs)), Chunk: 64})
+				}
+			}
+		}
+	}
+}
+
 // enumCR: carriage returns in every text- and attribute-position content, on every message kind,
 // with every IdP metadata layout.
 func enumCR(_ string, emit func(Case)) {
@@ -1406,6 +1492,7 @@ var prop = &pbt.Prop[Case]{
 		{Name: "message-kind-pairs-judged-after-the-sequence", Each: enumPairs},
 		{Name: "carriage-return-contents-x-kinds-x-idp-layouts", Each: enumCR},
 		{Name: "idp-metadata-layouts-x-message-kinds", Each: enumLayouts},
+		{Name: "idp-metadata-refreshed-between-messages", Each: enumIDPRefresh},
 	},
 	Assumptions: []string{
 		"'+' in a query component is read as a space (application/x-www-form-urlencoded, what every mainstream receiver does); see internal/urlw",
@@ -1413,7 +1500,7 @@ var prop = &pbt.Prop[Case]{
 		"endpoint queries never contain parameters called SAMLRequest, SAMLResponse, RelayState, SigAlg or Signature",
 		"name IDs and request IDs are XML-1.0-representable strings (DESIGN 2.6); name ID, issuer and class reference (text positions) must come back exactly, carriage returns included, on every binding; the request ID (attribute position) must come back exactly except that a literal TAB / LF may read as a space (XML 3.3.3; property silent) - a carriage return must survive there too; relay states are any valid UTF-8 without NUL",
 		"results are judged only after the whole sequence has been created: every []byte / *url.URL a call returned is kept, compared with a copy taken at creation time, and decoded then",
-		"between two creations the application may change public fields of the one ServiceProvider value (EntityID, AuthnNameIDFormat, ForceAuthn, RequestedAuthnContext); each message must reflect the configuration in force when it was created (the IdP is re-registered with the SP's then-current metadata)",
+		"between two creations the application may change public fields of the one ServiceProvider value (EntityID, AuthnNameIDFormat, ForceAuthn, RequestedAuthnContext) and refresh the IdP metadata it holds (new pointer, overwritten in place, descriptors replaced: new endpoints, another layout; the library IdP moves along); each message must reflect the configuration in force when it was created (the IdP is re-registered with the SP's then-current metadata)",
 		"the SP's copy of the IdP metadata is laid out by the harness (idpSpec): one or several IDPSSODescriptors, either endpoint order, endpoints of other bindings, the binding in use only in a later descriptor, several endpoints of one binding; the configured destination is the first endpoint of the requested binding in document order over all descriptors; every layout offers every binding",
 		"IdP endpoints carry no / an equal / a different ResponseLocation: requests must go to Location; for a LogoutResponse either Location or ResponseLocation is accepted (property silent), but URL / form action and the Destination attribute must name the same one",
 		"LogoutBindings, AllowIDPInitiated, MetadataValidDuration and DefaultRedirectURI are varied and never judged",
